@@ -746,8 +746,8 @@ Proof.
 Qed.
 
 (* ------------------------------------------------------------------ interruption records *)
-Definition mk (op : list rrec) (nx : nat) (x : rstate) (q : list doc) (fl : bool) : mon :=
-  {| m_open := op; m_next := nx; m_st := x; m_expect := q; m_flag := fl |}.
+Definition mk (op : list rrec) (nx : nat) (x : rstate) (q : list doc) (fl : bool * bool) : mon :=
+  {| m_open := op; m_next := nx; m_st := x; m_expect := q; m_flag := fst fl; m_bad := snd fl |}.
 Definition iexp (ms : list rrec) : list doc :=
   flat_map (fun r => if r_intr r then [DIntr (r_uid r) (s_c (sget r INTR))] else []) ms.
 Definition weak (r : rrec) : Prop :=
@@ -832,7 +832,7 @@ Proof.
   destruct H0 as (Hu & _). cbn in Hu. rewrite Hu. reflexivity.
 Qed.
 
-Lemma mon_eta m : m = mk (m_open m) (m_next m) (m_st m) (m_expect m) (m_flag m).
+Lemma mon_eta m : m = mk (m_open m) (m_next m) (m_st m) (m_expect m) (m_flag m, m_bad m).
 Proof. destruct m; reflexivity. Qed.
 
 Lemma Inv_with_bs a bs' :
@@ -850,11 +850,11 @@ Proof.
   assert (E1 : rstate_eqb (a_st a) (m_st m) = true) by (apply rstate_eqb_true; exact R1).
   rewrite E1. change (rstate_eqb Pausing Idle) with false. change (rstate_eqb Pausing Pausing) with true. cbn [negb andb orb].
   assert (Hnd : NoDup (map r_uid (m_open m))) by (rewrite (rel_uids_eq _ _ R4); exact I2).
-  destruct (intr_ok (a_rec a) _ _ R4 I1 Hnd [] bs' docs ok (m_next m) Pausing (m_flag m)) as (ms' & Erun & F' & I' & U' & _);
+  destruct (intr_ok (a_rec a) _ _ R4 I1 Hnd [] bs' docs ok (m_next m) Pausing (m_flag m, m_bad m)) as (ms' & Erun & F' & I' & U' & _);
     [intros p y [] | exact Hl |].
   cbn [app] in Erun. unfold intr_expect. fold (iexp (m_open m)).
-  change {| m_open := m_open m; m_next := m_next m; m_st := Pausing; m_expect := iexp (m_open m); m_flag := m_flag m |}
-    with (mk (m_open m) (m_next m) Pausing (iexp (m_open m)) (m_flag m)).
+  change {| m_open := m_open m; m_next := m_next m; m_st := Pausing; m_expect := iexp (m_open m); m_flag := m_flag m; m_bad := m_bad m |}
+    with (mk (m_open m) (m_next m) Pausing (iexp (m_open m)) (m_flag m, m_bad m)).
   rewrite Erun. eexists; split; [reflexivity|]. splits.
   - apply (Inv_with_bs a bs' Hi I' U').
   - unfold Rel; cbn. splits; try reflexivity; assumption.
@@ -898,11 +898,11 @@ Proof.
   { clear -R4. induction R4 as [|kb r l ml H0 H IH]; cbn; constructor; [apply Rel_b_rw_same, H0 | exact IH]. }
   assert (Hnd : NoDup (map r_uid (map rw (m_open m)))) by (rewrite (rel_uids_eq _ _ R4'); exact I2).
   assert (Hwk : Forall weak (map rw (m_open m))) by (rewrite Forall_map; apply Forall_forall; intros; apply weak_rw).
-  destruct (intr_ok (a_rec a) _ _ R4' I1 Hnd [] bs' docs ok (m_next m) (m_st m) (m_flag m)) as (ms' & Erun & F' & I' & U' & W');
+  destruct (intr_ok (a_rec a) _ _ R4' I1 Hnd [] bs' docs ok (m_next m) (m_st m) (m_flag m, m_bad m)) as (ms' & Erun & F' & I' & U' & W');
     [intros p y [] | exact Hl |].
   specialize (W' Hwk). cbn [app] in Erun. rewrite iexp_rw in Erun.
   change (m_set_expect (weaken m) (intr_expect m))
-    with (mk (map rw (m_open m)) (m_next m) (m_st m) (iexp (m_open m)) (m_flag m)).
+    with (mk (map rw (m_open m)) (m_next m) (m_st m) (iexp (m_open m)) (m_flag m, m_bad m)).
   rewrite mon_run_app, Erun. rewrite mon_run_quiet by (reflexivity || exact Hq).
   eexists; split; [reflexivity|]. destruct Hb as [->| ->].
   - split; [apply (Inv_with_bs a bs' Hi I' U')|]. unfold Rel; cbn. splits; try reflexivity; assumption.
@@ -938,13 +938,13 @@ Proof.
     rewrite (mon_obs_doc_plain _ _ (DStop (auid b) xs rs (a_num b))) by (reflexivity || exact I).
     cbn [doc_effect take_run m_open mk]. destruct Hb as (Hu & Hb'). cbn [snd] in Hu. rewrite Hu, Nat.eqb_refl.
     rewrite (stop_ok rec b r Hib (conj Hu Hb')).
-    destruct (IH HI0 nx x (fl || r_behind r (a_num b))) as (fl' & E). exists fl'. exact E.
+    destruct (IH HI0 nx x (fst fl || r_behind r (a_num b), snd fl || r_miscount r (a_num b))) as (fl' & E). exists fl'. exact E.
 Qed.
 
 Lemma acc_closeall a xs rs : Acc a (a_stops (a_bs a) xs rs) (with_bs a []).
 Proof.
   intros m Hi Hr. pose proof Hi as (I1 & I2 & I3). pose proof Hr as (R1 & R2 & R3 & R4).
-  destruct (stops_ok (a_rec a) xs rs _ _ R4 I1 (m_next m) (m_st m) (m_flag m)) as (fl' & E).
+  destruct (stops_ok (a_rec a) xs rs _ _ R4 I1 (m_next m) (m_st m) (m_flag m, m_bad m)) as (fl' & E).
   rewrite (mon_eta m), R3. rewrite E. eexists; split; [reflexivity|]. splits.
   - unfold Inv; cbn. splits; constructor.
   - unfold Rel; cbn. splits; try reflexivity; try assumption. constructor.
